@@ -281,9 +281,45 @@ def select_case(E, c, bound, node, short):
     return case
 
 
+def options_term(E, d):
+    """an option dictionary built from a literal with definite keys and opaque values, as an opaque option set: an
+    injective-by-name constructor over the value terms (key order as written)"""
+    from . import grid
+    items = [(k, v) for k, (p, v) in d.items.items() if p is True]
+    if any(p is not True and p is not False for p, _ in d.items.values()):
+        raise Unsupported('option dict with symbolic presence as an opaque option set')
+    terms = []
+    for k, v in items:
+        if v is None:
+            terms.append(grid.NONE_OPTS)
+        elif isinstance(v, Opaque):
+            terms.append(v.t)
+        else:
+            raise Unsupported('non-opaque option value %s=%r' % (k, v))
+    if not items:
+        return EMPTY_KW
+    f = z3.Function('options_' + '_'.join(k for k, _ in items), *([ValSort] * len(items) + [ValSort]))
+    return f(*terms)
+
+
+def _as_optdict(E, v):
+    if isinstance(v, SDict) and v.items and all(p is True or p is False for p, _ in v.items.values()) \
+            and all(isinstance(x, Opaque) or x is None for p, x in v.items.values() if p is True):
+        t = options_term(E, v)
+        o = Opaque(t, 'option dict literal')
+        o.cell = {'ident': v.ident, 't': t}
+        return o
+    return v
+
+
 def call_contract(E, qual, args, node):
     c0 = E.contracts[qual]
     bound = bind_params(E, qual, args, node)
+    wants_optdict = {p for case in (c0.get('cases') or [{}]) for p, T in dict(c0.get('params', {}), **case.get('params', {})).items()
+                     if T == 'optdict'}
+    for p in wants_optdict:
+        if p in bound:
+            bound[p] = _as_optdict(E, bound[p])
     short = qual.replace('bycycle.', '')
     # the callee's view: choose the typing case that matches the actual arguments
     case = select_case(E, c0, bound, node, short)
@@ -663,7 +699,9 @@ def np_zeros(E, args, node):
         ty, zero = BOOL, lift(False)
     elif dtype is None:
         ty, zero = XR, xops.to_x(lift(0.0))
-    return E.new_arr(z3.simplify(n), ty, lambda i: zero)
+    r = E.new_arr(z3.simplify(n), ty, lambda i: zero)
+    r.meta = {'zeros': True}
+    return r
 
 
 @libfn('numpy.diff')
@@ -852,6 +890,11 @@ def arr_tolist(E, a, args, node):
     if grid.is_grid(a):
         clo = E.st.heap[a.ident]
         return grid.grid(E, a.shape, a.lead, clo, 'list')        # fresh nested lists (distinct rows)
+    if (getattr(a, 'meta', None) or {}).get('zeros') and a.ndim == 1 and E.st.heap.get(a.ident) is not None \
+            and getattr(E.st.heap[a.ident], '__name__', '') == '<lambda>' and not E.spec_mode and a.ident in E.st.fresh:
+        # np.zeros(n).tolist(): a fresh list of n placeholders, about to be filled with objects (group-level code)
+        g = grid.zeros_grid(E, [a.n if not isinstance(a.n, int) else z3.IntVal(a.n)])
+        return g
     return E.snapshot(a, kind='list')
 
 
